@@ -298,6 +298,7 @@ def run_lf(plan, res: RunResult):
         if not (math.isfinite(got) and math.isfinite(want)):
             res.probe("non-finite-lnL")
             return True
+        res.values.append(f"{got:.9g}")
         if not numpy.isclose(got, want, rtol=1e-9, atol=1e-9):
             res.add(f"C07.stale/{after}:{fault}",
                     f"lnL={got!r} but a new function with the same rules gives {want!r} (diff {got - want:.3e}) "
@@ -565,6 +566,7 @@ def run_calc(plan, res: RunResult):
                 res.probe("fresh-calculator-raised")
                 continue
             got = calc.testfunction()
+            res.values.append(f"{float(got):.9g}")
             if not _same(got, want):
                 res.add(f"C07.calc-inconsistent/{path}:output",
                         f"output {got!r} but a fresh calculator at last_values gives {want!r} after {trace}; "
@@ -596,6 +598,7 @@ def run(plan, tier="quick") -> RunResult:
     res = RunResult()
     res.config = plan["level"] + ("-fault-free" if plan.get("fault_free") else "")
     res.sample_trace = []
+    res.values = []  # every observed value: part of the run digest
     out = io.StringIO()
     with contextlib.redirect_stdout(out):
         if plan["level"] == "calc":
@@ -606,6 +609,7 @@ def run(plan, tier="quick") -> RunResult:
     res.events = len(plan["ops"])
     trace = getattr(res, "sample_trace", [])
     h = hashlib.sha256(repr(trace).encode())
+    h.update(repr(res.values).encode())
     h.update(repr(sorted(v.cls for v in res.violations)).encode())
     res.digest = h.hexdigest()
     if len(trace) > 1:
